@@ -267,6 +267,8 @@ impl Zone {
 
         if other.soa.is_some() {
             self.soa = other.soa;
+            // the SOA RR of `other` (merged in below) replaces the old one
+            self.records.this.remove(&RecordType::SOA);
         }
 
         self.records.merge(other.records);
